@@ -11,10 +11,19 @@ member iff every emitted part is consulted.  Both lists are REGENERATED from the
 * `kinds_without_custom_lookup`: exactly `contact` and `license` rely on reflection;
 * on the model: a member the kind emits from a consulted struct part is found under the same name
   (`member_found_by_chain`).
-The per-pointer agreement on real documents (name provider, ~0/~1 unescaping, array and status-code tokens) is
-decided per run by the harness oracle over every pointer of every generated document.
+* a MODEL of the hand-written `JSONLookup` methods, one token at a time, on the encoding of the typed value
+  (`Codec/Lookup.lean`: `lookupTok`, driven by the regenerated chains, tied to the methods by the `lookup`
+  correspondence on every run), and the theorems that it finds, with its value, every present member the kind's
+  encoder can emit: `regular_kinds_find_their_members` (any member claimed by a live part — the descriptors of
+  C06's proof; `normConcatKind_claims` shows every emitted member is claimed), `schema_finds_its_members` (declared
+  keywords, extensions, unknown keywords; not `$ref`, not `$schema`), `responses_find_their_members` (`default`,
+  canonical status codes, extensions), `paths_find_their_members`. Side conditions on the regenerated chains by
+  `decide`.
+The agreement for whole pointers on real documents (several tokens, name provider, ~0/~1 unescaping, array
+indices) is decided per run by the harness oracle over every pointer of every generated document.
 -/
 import SpecModel.Codec.SideConditions
+import SpecModel.Codec.Lookup
 
 namespace SpecModel.Props.C15
 open SpecModel SpecModel.Codec
@@ -46,5 +55,54 @@ theorem member_found_by_chain (structs : List (String × List Field)) (chain : L
 
 example : chainFinds Gen.structs ["SchemaProps", "SwaggerSchemaProps"] "discriminator" = some "SwaggerSchemaProps" := by
   decide
+
+/-! ### the lookup model finds what the encoder emits -/
+
+theorem keywords_not_numerals : keywordsNotNumerals = true := by decide
+
+/-- every kind with a hand-written lookup other than schema, responses and paths consults all its live parts -/
+theorem chains_cover_parts :
+    (Gen.kinds.filter fun ki => !ki.lookupChain.isEmpty && !(["schema", "responses", "paths"].contains ki.kind)).all
+      (fun ki => structCovered ki && extCovered ki) = true := by decide
+
+theorem regular_kinds_find_their_members {k : String} {ki : KindInfo} (hk : lookupKind Gen.kinds k = some ki)
+    (hcustom : ki.lookupChain.isEmpty = false) (hreg : (["schema", "responses", "paths"].contains ki.kind) = false)
+    {ms : List (String × Json)} {tok : String} {v : Json} (hl : lookupKey ms tok = some v) (hne : tok ≠ "$ref")
+    {d : PartDesc} (hd : d ∈ (liveParts ki).map descOf) (hc : claims d tok) : lookupTok k ms tok = some v := by
+  have hmem : ki ∈ Gen.kinds := List.mem_of_find?_eq_some hk
+  have := List.all_eq_true.mp chains_cover_parts ki (List.mem_filter.mpr ⟨hmem, by rw [hcustom, hreg]; rfl⟩)
+  simp only [Bool.and_eq_true] at this
+  exact member_found_regular hk this.1 this.2 keywords_not_numerals hl hne hd hc
+
+theorem schema_finds_its_members {ms : List (String × Json)} {tok : String} {v : Json}
+    (hl : lookupKey ms tok = some v) (hne : tok ≠ "$ref") (hns : tok ≠ "$schema")
+    (hcanon : ∀ n, atoi tok = some n → itoa n = tok) : lookupTok "schema" ms tok = some v := by
+  have hk : ∃ ki, lookupKind Gen.kinds "schema" = some ki ∧
+      ["Extensions", "ExtraProps", "SchemaProps", "SwaggerSchemaProps"].all ki.lookupChain.contains = true := by decide
+  obtain ⟨ki, h1, h2⟩ := hk
+  exact member_found_schema h1 h2 keywords_not_numerals hl hne hns hcanon
+
+theorem responses_find_their_members {ms : List (String × Json)} {tok : String} {v : Json}
+    (hl : lookupKey ms tok = some v)
+    (hem : tok = "default" ∨ isExtKey tok = true ∨ ∃ n, tok = itoa n ∧ int64Range n) :
+    lookupTok "responses" ms tok = some v := by
+  have hk : ∃ ki, lookupKind Gen.kinds "responses" = some ki ∧
+      ["Default", "Extensions", "StatusCodeResponses"].all ki.lookupChain.contains = true := by decide
+  obtain ⟨ki, h1, h2⟩ := hk
+  exact member_found_responses h1 h2 hl hem
+
+theorem paths_find_their_members {ms : List (String × Json)} {tok : String} {v : Json}
+    (hl : lookupKey ms tok = some v) (hem : startsWithSlash tok = true ∨ isExtKey tok = true) :
+    lookupTok "paths" ms tok = some v := by
+  have hk : ∃ ki, lookupKind Gen.kinds "paths" = some ki ∧ ["Paths", "Extensions"].all ki.lookupChain.contains = true := by
+    decide
+  obtain ⟨ki, h1, h2⟩ := hk
+  exact member_found_paths h1 h2 hl hem
+
+/-- non-vacuity: the model on a small operation, a schema with an unknown keyword, and a responses object -/
+example : lookupTok "operation" [("operationId", .str "op"), ("x-a", .num 1)] "operationId" = some (.str "op") := by rfl
+example : lookupTok "schema" [("title", .str "t"), ("custom", .num 1)] "custom" = some (.num 1) := by rfl
+example : lookupTok "responses" [("200", .obj []), ("default", .obj [])] "200" = some (.obj []) := by rfl
+example : lookupTok "schema" [("$schema", .str "u")] "$schema" = none := by rfl   -- K-C15-1
 
 end SpecModel.Props.C15
